@@ -1,57 +1,101 @@
 /-
-C12 — concurrent model: threads releasing / copying handles to ONE shared object.
-Visible (scheduling) steps are the atomic operations on `reference_count_` and the start of
-the object's destructor; everything else a thread does is local to its own two handles.
+C12 — concurrent model: threads releasing / copying / unifying handles to ONE shared object.
+
+Every thread owns three local handles: L0, L1 (`CountingPtr<Base>`) and D (`CountingPtr<Derived>`).
+A flag says whether the handle points to the *shared* object; `false` means "something else"
+(nullptr or a private copy made by `unify()`; private copies are thread-local, their counters
+are never touched by another thread and their operations are not scheduling points — which
+private object a handle points to never influences an operation on the shared object).
+
+Visible (scheduling) steps are the atomic operations on the shared object's `reference_count_`,
+the start of its destructor, and the start of a copy construction from it (`new Type(*ptr_)` in
+`unify()`).  `unify()` is `if (ptr_ && !ptr_->unique()) operator=(CountingPtr(new Type(*ptr_)))`:
+the `unique()` load is a *conditional* step (`uload`): only if the loaded count is not 1 do the
+copy and the release of the shared object follow, and the handle then points to the private copy.
 `asserts = true` models a build without NDEBUG: `dec_reference` first loads the count for its
 `assert`, and `~ReferenceCounter` loads it once more.
 -/
 namespace TlxVerif.C12
 
-inductive Micro where
-  | inc | dec | load | del | dload
+/-- the three local handles of a thread -/
+inductive Hd where
+  | l0 | l1 | d
 deriving DecidableEq, Repr
 
-structure Thr where
-  l0 : Bool              -- local handle L0 points to the shared object
+inductive Micro where
+  | inc | dec | load | del | dload
+  | uload (h : Hd)      -- `ptr_->unique()` inside `h.unify()`; continues only if the count is not 1
+  | copy                -- `new Type(*ptr_)`: the copy constructor reads the shared object
+deriving DecidableEq, Repr
+
+/-- which local handles point to the shared object -/
+structure Fl where
+  l0 : Bool
   l1 : Bool
+  d : Bool
+deriving DecidableEq, Repr
+
+def Fl.get (f : Fl) : Hd → Bool
+  | .l0 => f.l0 | .l1 => f.l1 | .d => f.d
+
+def Fl.clear (f : Fl) : Hd → Fl
+  | .l0 => { f with l0 := false } | .l1 => { f with l1 := false } | .d => { f with d := false }
+
+structure Thr where
+  fl : Fl
   pend : List Micro      -- visible steps of the operation in progress
   prog : List Char       -- operations still to start
 deriving DecidableEq, Repr
 
-/-- visible steps of `dec_reference()` on a non-null handle -/
+/-- visible steps of `dec_reference()` on a handle to the shared object -/
 def decSteps (asserts : Bool) : List Micro := if asserts then [.load, .dec] else [.dec]
 
+/-- copy assignment `dst = src` (also the converting one): early return on equal pointers,
+    `inc_reference(src)`, `dec_reference()` -/
+def assignSteps (asserts : Bool) (dst src : Bool) : List Micro :=
+  if dst = src then [] else (if src then [.inc] else []) ++ (if dst then decSteps asserts else [])
+
 /-- start operation `c`: its visible steps and the new local state -/
-def expand (asserts : Bool) (l0 l1 : Bool) (c : Char) : List Micro × Bool × Bool :=
-  let d := decSteps asserts
+def expand (asserts : Bool) (f : Fl) (c : Char) : List Micro × Fl :=
+  let ds := decSteps asserts
   match c with
-  | 'c' => (if l0 then .inc :: d else [], l0, l1)                      -- { Ptr tmp(L0); }
-  | 'a' => if l0 = l1 then ([], l0, l1)                                -- L1 = L0;
-           else ((if l0 then [.inc] else []) ++ (if l1 then d else []), l0, l0)
-  | 'b' => if l0 = l1 then ([], l0, l1)                                -- L0 = L1;
-           else ((if l1 then [.inc] else []) ++ (if l0 then d else []), l1, l1)
-  | 'm' => if l0 = l1 then ([], l0, l1)                                -- L1 = std::move(L0);
-           else (if l1 then d else [], false, l0)
-  | 'n' => if l0 = l1 then ([], l0, l1)                                -- L0 = std::move(L1);
-           else (if l0 then d else [], l1, false)
-  | 'r' => (if l1 then d else [], l0, false)                           -- L1.reset();  /  ~L1
-  | 'q' => (if l0 then d else [], false, l1)                           -- L0.reset();  /  ~L0
-  | 's' => ([], l1, l0)                                                -- L0.swap(L1);
-  | 'u' => (if l0 then [.load] else [], l0, l1)                        -- L0.unique();
-  | 'v' => (if l1 then [.load] else [], l0, l1)                        -- L1.unique();
-  | _ => ([], l0, l1)
+  | 'c' => (if f.l0 then .inc :: ds else [], f)                               -- { Ptr tmp(L0); }
+  | 'a' => (assignSteps asserts f.l1 f.l0, { f with l1 := f.l0 })             -- L1 = L0;
+  | 'b' => (assignSteps asserts f.l0 f.l1, { f with l0 := f.l1 })             -- L0 = L1;
+  | 'm' => if f.l0 = f.l1 then ([], f)                                        -- L1 = std::move(L0);
+           else (if f.l1 then ds else [], { f with l0 := false, l1 := f.l0 })
+  | 'n' => if f.l0 = f.l1 then ([], f)                                        -- L0 = std::move(L1);
+           else (if f.l0 then ds else [], { f with l0 := f.l1, l1 := false })
+  | 'r' => (if f.l1 then ds else [], { f with l1 := false })                  -- L1.reset();  /  ~L1
+  | 'q' => (if f.l0 then ds else [], { f with l0 := false })                  -- L0.reset();  /  ~L0
+  | 'Q' => (if f.d then ds else [], { f with d := false })                    -- D.reset();   /  ~D
+  | 's' => ([], { f with l0 := f.l1, l1 := f.l0 })                            -- L0.swap(L1);
+  | 'u' => (if f.l0 then [.load] else [], f)                                  -- L0.unique();
+  | 'v' => (if f.l1 then [.load] else [], f)                                  -- L1.unique();
+  | 'w' => (if f.d then [.load] else [], f)                                   -- D.unique();
+  | 'x' => (if f.l0 then [.uload .l0] else [], f)                             -- L0.unify();
+  | 'y' => (if f.l1 then [.uload .l1] else [], f)                             -- L1.unify();
+  | 'z' => (if f.d then [.uload .d] else [], f)                               -- D.unify();
+  -- converting operations, CountingPtr<Derived> -> CountingPtr<Base>
+  | 'C' => (if f.d then .inc :: ds else [], f)                                -- { Ptr tmp(D); }
+  | 'K' => (if f.d then ds else [], { f with d := false })                    -- { Ptr tmp(std::move(D)); }
+  | 'A' => (assignSteps asserts f.l0 f.d, { f with l0 := f.d })               -- L0 = D;
+  | 'B' => (assignSteps asserts f.l1 f.d, { f with l1 := f.d })               -- L1 = D;
+  | 'M' => if f.l0 = f.d then ([], f)                                         -- L0 = std::move(D);
+           else (if f.l0 then ds else [], { f with l0 := f.d, d := false })
+  | _ => ([], f)
 
 /-- start operations until one has a visible step (or the program is over) -/
-def settleAux (asserts : Bool) : Bool → Bool → List Char → Thr
-  | l0, l1, [] => { l0 := l0, l1 := l1, pend := [], prog := [] }
-  | l0, l1, c :: rest =>
-    match expand asserts l0 l1 c with
-    | ([], l0', l1') => settleAux asserts l0' l1' rest
-    | (ms, l0', l1') => { l0 := l0', l1 := l1', pend := ms, prog := rest }
+def settleAux (asserts : Bool) : Fl → List Char → Thr
+  | f, [] => { fl := f, pend := [], prog := [] }
+  | f, c :: rest =>
+    match expand asserts f c with
+    | ([], f') => settleAux asserts f' rest
+    | (ms, f') => { fl := f', pend := ms, prog := rest }
 
 /-- run the thread's local code up to its next visible step -/
 def settle (asserts : Bool) (t : Thr) : Thr :=
-  if t.pend.isEmpty then settleAux asserts t.l0 t.l1 t.prog else t
+  if t.pend.isEmpty then settleAux asserts t.fl t.prog else t
 
 structure CSt where
   count : Nat
@@ -60,41 +104,54 @@ structure CSt where
   thr : List Thr
 deriving Repr
 
-/-- a thread: L0 = copy of the shared handle, L1 empty; the handles are destroyed (L1 first) at the end -/
+/-- a thread: L0 and D = copies of the shared handle, L1 empty; the handles are destroyed at the
+    end in the order D, L1, L0 -/
 def Thr.start (asserts : Bool) (prog : List Char) : Thr :=
-  settle asserts { l0 := true, l1 := false, pend := [], prog := prog ++ ['r', 'q'] }
+  settle asserts { fl := ⟨true, false, true⟩, pend := [], prog := prog ++ ['Q', 'r', 'q'] }
 
 def CSt.start (asserts : Bool) (progs : List (List Char)) : CSt :=
-  { count := progs.length, destroyed := 0, err := none, thr := progs.map (Thr.start asserts) }
+  { count := 2 * progs.length, destroyed := 0, err := none, thr := progs.map (Thr.start asserts) }
 
 /-- error flag: the object was touched after its destruction -/
 def uaf (s : CSt) (what : String) : CSt :=
   if s.destroyed ≠ 0 then { s with err := some s!"use after free: {what} on the destroyed object" } else s
 
-/-- effect of one visible step `m` (head of the thread's list, `rest` behind it) on the shared
-    state; returns the thread's new list of outstanding steps and the event text -/
-def microStep (asserts : Bool) (s : CSt) (m : Micro) (rest : List Micro) : CSt × List Micro × String :=
+/-- effect of one visible step `m` of thread `t` (head of its list, `rest` behind it) on the
+    shared state; returns the thread with its new list of outstanding steps (and local flags)
+    and the event text -/
+def microStep (asserts : Bool) (s : CSt) (t : Thr) (m : Micro) (rest : List Micro) : CSt × Thr × String :=
   match m with
   | .inc =>
     let s := uaf s "inc"
     let s := { s with count := s.count + 1 }
-    (s, rest, s!"inc={s.count}")
+    (s, { t with pend := rest }, s!"inc={s.count}")
   | .load =>
     let s := uaf s "load"
-    (s, rest, s!"load={s.count}")
+    (s, { t with pend := rest }, s!"load={s.count}")
+  | .uload h =>
+    let s := uaf s "load"
+    -- `if (ptr_ && !ptr_->unique())`: unique() is `reference_count_ == 1`
+    if s.count = 1 then (s, { t with pend := rest }, s!"load={s.count}")
+    else
+      -- `operator=(CountingPtr(new Type(*ptr_)))`: copy the object, (the new object's counter is
+      -- private,) release the shared object; the handle then holds the private copy
+      (s, { t with fl := t.fl.clear h, pend := .copy :: decSteps asserts ++ rest }, s!"load={s.count}")
+  | .copy =>
+    let s := uaf s "copy"
+    (s, { t with pend := rest }, "copy")
   | .dec =>
     let s := uaf s "dec"
     if s.count = 0 then
-      ({ s with err := some "reference count underflow" }, rest, "dec=underflow")
+      ({ s with err := some "reference count underflow" }, { t with pend := rest }, "dec=underflow")
     else
       let s := { s with count := s.count - 1 }
       -- `if (ptr_->dec_reference()) Deleter()(ptr_);` : the destructor is the next visible step
       let extra := if s.count = 0 then (if asserts then [.del, .dload] else [.del]) else []
-      (s, extra ++ rest, s!"dec={s.count}")
+      (s, { t with pend := extra ++ rest }, s!"dec={s.count}")
   | .del =>
     let s := if s.destroyed ≠ 0 then { s with err := some "double destruction" } else s
-    ({ s with destroyed := s.destroyed + 1 }, rest, "del")
-  | .dload => (s, rest, s!"load={s.count}")
+    ({ s with destroyed := s.destroyed + 1 }, { t with pend := rest }, "del")
+  | .dload => (s, { t with pend := rest }, s!"load={s.count}")
 
 /-- thread `i` performs its next visible step; returns the event text -/
 def cstep (asserts : Bool) (s : CSt) (i : Nat) : Option (CSt × String) :=
@@ -104,8 +161,8 @@ def cstep (asserts : Bool) (s : CSt) (i : Nat) : Option (CSt × String) :=
     match t.pend with
     | [] => none
     | m :: rest =>
-      let r := microStep asserts s m rest
-      some ({ r.1 with thr := r.1.thr.set i (settle asserts { t with pend := r.2.1 }) }, s!"t{i}:{r.2.2}")
+      let r := microStep asserts s t m rest
+      some ({ r.1 with thr := r.1.thr.set i (settle asserts r.2.1) }, s!"t{i}:{r.2.2}")
 
 /-- indices of the threads parked at a visible step -/
 def unfinished (s : CSt) : List Nat :=
